@@ -49,6 +49,33 @@ class Frames:
             # checked on it, not part of the discovery)
             if r1 == [] and r2 == [] and lp.run(o) != []:
                 self.comment.append(h)
+        # literal forms with an opener (one character, or a digraph head and
+        # one character) and a *different* closer: opener + payload runs to
+        # the end of the program as one token, some closer ends it
+        self.bracketed = []  # (opener, closer, kind)
+        known = {d for d, _ in self.delimited} | {p for p, _ in self.prefix1} \
+            | {p for p, _ in self.prefix2} | set(self.comment)
+        dig = [h for h in lp.reps
+               if lp.run(h + o) == [("GENERAL", h + o)]]
+        openers = [h for h in lp.reps if h not in known] + [
+            a + b for a in dig for b in lp.reps]
+        for op in openers:
+            r = lp.run(op + o + o)
+            if not (isinstance(r, list) and len(r) == 1
+                    and r[0][0] != "GENERAL" and r[0][1] == o + o):
+                continue
+            r5 = lp.run(op + o + o + o + o + o)
+            if not (isinstance(r5, list) and len(r5) == 1):
+                continue  # a fixed-width form, not an open one
+            for cl in lp.reps:
+                if cl in op:
+                    continue
+                rc = lp.run(op + o + o + cl)
+                rr = lp.run(op + o + o + cl + o)
+                if isinstance(rc, list) and len(rc) == 1 and \
+                        rc[0] == r[0] and isinstance(rr, list) \
+                        and len(rr) == 2:
+                    self.bracketed.append((op, cl, r[0][0]))
 
 
 def law_stateless(chk, lp, rule, file):
@@ -115,6 +142,26 @@ def law_closer_optional(chk, lp, fr: Frames, rule, file):
                "delimiter off changes the tokens", file,
                witness=repr(d + (bad or "")),
                sample={"literal": kind, "payloads": len(payloads)})
+    for op, cl, kind in fr.bracketed:
+        payloads = [""] + [c for c in lp.reps if c != cl] + [
+            a + b for a in lp.reps for b in lp.reps if cl not in a + b]
+        bad = None
+        for s in payloads:
+            n += 1
+            if lp.run(op + s) != lp.run(op + s + cl):
+                # an escape character before the closer is the payload's
+                # business, not the closer's: compare with the closer doubled
+                if s and lp.run(op + s + cl) == lp.run(op + s + cl + cl):
+                    continue
+                bad = s
+                break
+        chk.ob(rule, f"{kind} literal {op!r}…{cl!r}", bad is None,
+               f"{op + (bad or '')!r} at the end of a program is lexed as "
+               f"{lp.run(op + (bad or ''))} but closed as "
+               f"{lp.run(op + (bad or '') + cl)}: leaving the closing "
+               "delimiter off changes the tokens", file,
+               witness=repr(op + (bad or "")),
+               sample={"literal": kind, "payloads": len(payloads)})
     return n
 
 
@@ -153,6 +200,23 @@ def law_payload_opaque(chk, lp, fr: Frames, rule, file):
                    f"changes how the text is tokenised: {d + e + (bad or '') + d + tail!r} "
                    f"gives {lp.run(d + e + (bad or '') + d + tail)}", file,
                    witness=repr(d + e + (bad or "") + d + tail))
+        # multi-character texts the lexer itself mentions are payload too
+        bad = None
+        for atom in lp.atoms():
+            if d in atom or any(e in atom for e in escapes):
+                continue
+            n += 1
+            r = lp.run(d + atom + d + tail)
+            if not (isinstance(r, list) and [k for k, _ in r] == want
+                    and r[0][1] == atom):
+                bad = atom
+                break
+        chk.ob(rule, f"{kind} literal {d!r}: multi-character payloads",
+               bad is None,
+               f"inside a {kind} literal the text {bad!r} is not kept as "
+               f"payload: {d + (bad or '') + d + tail!r} gives "
+               f"{lp.run(d + (bad or '') + d + tail)}", file,
+               witness=repr(d + (bad or "") + d + tail))
         chk.ob(rule, f"{kind} literal {d!r}…{d!r}", True,
                sample={"literal": kind, "escape characters": escapes})
     for p, kind in fr.prefix1:
@@ -236,7 +300,21 @@ def law_number_splitting(chk, lp, rule_prefix, file):
                     v == "0" and w[0] not in ".°")
                 if legal:
                     findings.setdefault("maximal-munch", s)
+    # a NUMBER token is a contiguous piece of the program text: nothing
+    # (a comment, a pre-pass) joins digits that other text separates
+    for atom in lp.atoms():
+        for s in ("7" + atom + "7", "1.5" + atom + "5"):
+            n += 1
+            r = lp.run(s)
+            if isinstance(r, tuple):
+                continue
+            for k, v in r:
+                if k == "NUMBER" and v not in s:
+                    findings.setdefault("contiguous", s)
     laws = {
+        "contiguous": "a NUMBER token is not a contiguous piece of the "
+                      "program text (digits separated by other text were "
+                      "joined)",
         "raises": "the lexer raises on a digit string",
         "kinds": "a digit string produces a token that is not a NUMBER",
         "characters-kept": "the number tokens do not spell the input "
